@@ -259,6 +259,10 @@ def internals(s):
     return sorted(m.time for m in c.messages_abs() if m.message_type is MT.INTERNAL)
 
 
+LADDER = (33, 65, 129, 257, 513, 1025)                       # note counts of the scale families
+GAPS = (769, 889, 1537, 2000, 3073, 4097, 10001, 70001)      # tick distances of the scale families (not multiples of anything)
+
+
 def long_desc(n, p=60, chs=(0, 1, 9), step=5, lens=(3, 4, 5, 6)):
     """A long, structured, well-formed note list (scale family): n notes, onsets step*i, pitch p + i%5, channels
     cycling, lengths cycling; one (channel, pitch) recurs every 15 notes (75 ticks at step 5), far beyond its length.
